@@ -284,7 +284,7 @@ def _work(ctx: Ctx, item):
 
 
 def run(ctx: Ctx):
-    n = 40 if ctx.quick else 1500
+    n = 40 if ctx.quick else 4000
     pmap(ctx, _work, [(n,)] * 16)
     if not ctx.quick:
         from ..fuzz import run_fuzz
